@@ -27,7 +27,7 @@ func Run(ctx *common.Ctx) {
 	ncases := 640
 	maxLen := 12
 	if ctx.Thorough() {
-		ncases = 4000
+		ncases = 1500 // every step now also asks five resolvers about 42 function slots: 4000 histories took over 20 minutes
 		maxLen = 14
 	}
 	var terms []string
